@@ -386,7 +386,7 @@ Section Run.
     n' = ns0 /\ stop = negb (known_type f) /\
     match spec_value_var L LB LI p all (start_of true fixed pos f) (i_acc s) f with
     | Ok (v, raw, size) =>
-        exists s', run s steps = Ok s' /\ i_acc s' = i_acc s ++ [mk_field f v raw]
+        exists s', run s steps = Ok s' /\ i_acc s' = i_acc s ++ [mk_field f v raw] /\ i_raw s' = raw
           /\ 0 <= i_off s' /\ 0 <= start_of true fixed pos f + size
           /\ (last = false -> p / 2 ^ (i_off s') = p / 2 ^ (start_of true fixed pos f + size))
     | Err e => run s steps = Err e
@@ -417,8 +417,9 @@ Section Run.
       + destruct R as (o2 & k2 & R & P1 & P2 & P3). rewrite R. cbn [bind].
         unfold addlen_of, lenz in *. unfold append_step, mk_field.
         destruct (f_bitlen f) as [l|]; rs.
-        * eexists. split; [reflexivity|]. rs. split; [reflexivity|]. split; [exact P1|]. split; [exact P2|exact P3].
-        * eexists. split; [reflexivity|]. rs. split; [reflexivity|].
+        * eexists. split; [reflexivity|]. rs. split; [reflexivity|]. split; [reflexivity|].
+          split; [exact P1|]. split; [exact P2|exact P3].
+        * eexists. split; [reflexivity|]. rs. split; [reflexivity|]. split; [reflexivity|].
           replace (o2 + 0) with o2 in * by lia. split; [exact P1|]. split; [exact P2|exact P3].
       + rewrite R. reflexivity.
       + rewrite R. reflexivity.
@@ -442,7 +443,7 @@ Section Run.
       destruct (field_run f s pos i fixed _ st n' stop Vf Hlen Ef Ho Hp E0) as (-> & -> & R).
       unfold spec_fields_var. cbn [spec_fields_gen].
       destruct (spec_value_var L LB LI p all (start_of true fixed pos f) (i_acc s) f) as [[[v raw] size]|e|] eqn:Sv.
-      + destruct R as (s' & R & A & P1 & P2 & P3).
+      + destruct R as (s' & R & A & _ & P1 & P2 & P3).
         destruct (known_type f) eqn:K.
         * cbn [negb] in F.
           destruct (fields_steps t ns0) as [rest|] eqn:Er; [|discriminate F]. inversion F; subst steps. clear F.
@@ -569,3 +570,350 @@ Proof.
     rewrite (spec_value_var_size L LB LI p all pos acc f v raw size l Sv Fx El). apply IH. exact Ct.
   - apply spec_fields_gen_unfixed.
 Qed.
+
+Lemma simple_is_layout d : simple_def d = true -> var_layout_def d = true.
+Proof.
+  unfold simple_def, var_layout_def. generalize 0%nat as i. induction (d_fields d) as [|f t IH]; intros i S; [reflexivity|].
+  cbn [forallb] in S. apply andb_true_iff in S. destruct S as [Sf St].
+  cbn [var_fields_ok]. rewrite andb_true_l.
+  assert (Fx : fixed_size f = true /\ var_field_ok i true (match t with [] => true | _ => false end) f = true).
+  { unfold simple_field in Sf. unfold fixed_size, var_field_ok.
+    destruct (f_bitoff f) as [off|]; [|discriminate]. destruct (f_bitlen f) as [len|]; [|discriminate].
+    apply andb_true_iff in Sf. destruct Sf as [Sf Slau]. apply andb_true_iff in Sf. destruct Sf as [Sf Slz].
+    apply andb_true_iff in Sf. destruct Sf as [Sf Sind]. apply andb_true_iff in Sf. destruct Sf as [So Sl].
+    apply negb_true_iff in Slau, Slz, Sind. rewrite Slau, Slz, Sind, So, Sl.
+    split; [reflexivity|]. destruct (negb (known_type f)); reflexivity. }
+  destruct Fx as [Fx Vf]. rewrite Vf, Fx. cbn [andb].
+  destruct (known_type f); [apply IH; exact St | reflexivity].
+Qed.
+
+(* ====================== definitions carrying an INDIRECT_LOOKUP field ====================== *)
+Lemma is_t_excl f a b : is_t f a = true -> (a =? b) = false -> is_t f b = false.
+Proof. unfold is_t. intros H N. apply Z.eqb_eq in H. rewrite H. exact N. Qed.
+(* rewrite every type test of f in the goal, knowing H : is_t f X = true *)
+Ltac excl H :=
+  repeat match goal with
+         | |- context [is_t ?f ?Y] => first [ rewrite H | rewrite (is_t_excl f _ Y H eq_refl) ]
+         end.
+
+(* ---- patching one value of the accumulated field list ---- *)
+Definition with_val (x : field) (v : value) : field :=
+  mkField (fl_id x) (fl_name x) (fl_descr x) (fl_unit x) v (fl_raw x) (fl_pq x) (fl_type x) (fl_pk x).
+
+Lemma patch_val_length v : forall l k, length (patch_val k v l) = length l.
+Proof. induction l as [|x l IH]; intros [|k]; cbn; try reflexivity. rewrite IH. reflexivity. Qed.
+
+Lemma patch_val_app v m : forall l k, (k < length l)%nat -> patch_val k v (l ++ m) = patch_val k v l ++ m.
+Proof.
+  induction l as [|x l IH]; intros [|k] H; cbn in *; try lia; try reflexivity.
+  rewrite IH by lia. reflexivity.
+Qed.
+
+Lemma patch_val_last v x : forall l, patch_val (length l) v (l ++ [x]) = l ++ [with_val x v].
+Proof. induction l as [|y l IH]; cbn; [reflexivity|]. rewrite IH. reflexivity. Qed.
+
+Lemma nth_error_patch v : forall l k x, nth_error l k = Some x -> nth_error (patch_val k v l) k = Some (with_val x v).
+Proof.
+  induction l as [|y l IH]; intros [|k] x H; cbn in *; try discriminate.
+  - inversion H; subst. reflexivity.
+  - apply IH. exact H.
+Qed.
+
+Lemma patch_patch_id w : forall l k x, nth_error l k = Some x -> patch_val k (fl_val x) (patch_val k w l) = l.
+Proof.
+  induction l as [|y l IH]; intros [|k] x H; cbn in *; try discriminate.
+  - inversion H; subst. destruct x; reflexivity.
+  - rewrite (IH k x H). reflexivity.
+Qed.
+
+(* ---- static facts about the fields of this class ---- *)
+Lemma ifield_facts i f : ifield_ok i f = true ->
+  f_order f = Z.of_nat i + 1 /\ known_type f = true /\ is_t f T_STRING_LAU = false /\ is_t f T_STRING_LZ = false
+  /\ exists off len, f_bitoff f = Some off /\ f_bitlen f = Some len /\ 0 <= off /\ 1 <= len.
+Proof.
+  unfold ifield_ok. intros H.
+  apply andb_true_iff in H. destruct H as [H Hp]. apply andb_true_iff in H. destruct H as [H Hlz].
+  apply andb_true_iff in H. destruct H as [H Hlau]. apply andb_true_iff in H. destruct H as [Ho Hk].
+  apply Z.eqb_eq in Ho. apply negb_true_iff in Hlz, Hlau.
+  repeat split; try assumption.
+  destruct (f_bitoff f) as [off|]; [|discriminate]. destruct (f_bitlen f) as [len|]; [|discriminate].
+  apply andb_true_iff in Hp. destruct Hp as [H1 H2]. apply Z.leb_le in H1, H2.
+  exists off, len. repeat split; assumption.
+Qed.
+
+Lemma ifield_var_ok i last f : ifield_ok i f = true -> is_t f T_INDIRECT = false ->
+  var_field_ok i true last f = true.
+Proof.
+  intros H T. destruct (ifield_facts i f H) as (_ & K & Tlau & Tlz & off & len & Eo & El & Ho & Hl).
+  unfold var_field_ok. rewrite Eo, El, K, Tlau, Tlz, T. cbn [negb andb].
+  apply andb_true_iff. split; apply Z.leb_le; assumption.
+Qed.
+
+Lemma spec_value_var_acc L LB LI p all pos acc acc' f l : f_bitlen f = Some l ->
+  spec_value_var L LB LI p all pos acc f = spec_value_var L LB LI p all pos acc' f.
+Proof. intros El. unfold spec_value_var. rewrite El. reflexivity. Qed.
+
+(* the raw value of a LOOKUP / BITLOOKUP / RESERVED / SPARE field is its bits *)
+Lemma sint_raw L LB LI p all pos acc f len v raw size :
+  known_type f = true -> sint_type f = true -> f_bitlen f = Some len ->
+  spec_value_var L LB LI p all pos acc f = Ok (v, raw, size) -> raw = VInt (field_bits p pos len).
+Proof.
+  intros K S El. unfold spec_value_var, spec_value, is_numberlike. rewrite K, El. cbn [negb].
+  unfold sint_type in S.
+  apply orb_true_iff in S. destruct S as [S|S]; [apply orb_true_iff in S; destruct S as [S|S];
+                                                  [apply orb_true_iff in S; destruct S as [S|S]|]|].
+  - excl S. cbn [orb negb andb].
+    destruct (f_lookup f) as [t|]; [|discriminate]. destruct (find_tbl t L); [|discriminate].
+    cbn [bind fst snd]. intros Sv. inversion Sv. reflexivity.
+  - excl S. cbn [orb negb andb].
+    destruct (f_bitlookup f) as [t|]; [|discriminate]. destruct (find_tbl t LB); [|discriminate].
+    cbn [bind fst snd]. intros Sv. inversion Sv. reflexivity.
+  - excl S. cbn [orb negb andb bind fst snd]. intros Sv. inversion Sv. reflexivity.
+  - excl S. cbn [orb negb andb bind fst snd]. intros Sv. inversion Sv. reflexivity.
+Qed.
+
+Definition TEMP_VAL : value := VText [84; 69; 77; 80; 95; 86; 65; 76].
+
+Section Indirect.
+  Variable L LB : lookups.
+  Variable LI : ilookups.
+  Variable p : Z.
+  Variable all : list dbfield.
+  Notation run := (run_steps L LB LI p).
+  (* the INDIRECT_LOOKUP field is number j (0-based); it names field number k (Order), which is r *)
+  Variable j : nat.
+  Variable k : Z.
+  Variable t : str.
+  Variable tb : list ((Z * Z) * str).
+  Variable r : dbfield.
+  Variable offk lenk : Z.
+  Hypothesis Htb : find_tbl t LI = Some tb.
+  Hypothesis Hr : nth_error all (Z.to_nat (k - 1)) = Some r.
+  Hypothesis Hsint : sint_type r = true.
+  Hypothesis Hro : f_bitoff r = Some offk.
+  Hypothesis Hrl : f_bitlen r = Some lenk.
+  Hypothesis Hjk : Z.of_nat j + 1 < k.
+
+  Let n := mkNs (Some (Z.of_nat j + 1)) (Some k) (Some t).
+  Definition specv (own : Z) : value :=
+    match get_zz (field_bits p offk lenk, own) tb with Some nm => VText (bytes_of_str nm) | None => VNone end.
+
+  Definition fire_of (f : dbfield) : list dstep := if k =? f_order f then [SIndirect t j j] else [].
+
+  Lemma field_steps_n f b : body_steps f = Some b -> not_raise b = true -> is_t f T_INDIRECT = false ->
+    field_steps f n = Some ((pre_of f ++ b ++ [append_step f] ++ addlen_of f) ++ fire_of f, n, false).
+  Proof.
+    intros B NR T. unfold field_steps. rewrite B, T. fold (pre_of f). fold (addlen_of f).
+    unfold n. cbn [ns_order ns_orig ns_tbl].
+    replace (Z.to_nat (Z.of_nat j + 1 - 1)) with j by lia. fold (fire_of f).
+    rewrite <- !app_assoc.
+    destruct b as [|st b']; [reflexivity|].
+    destruct st; try reflexivity. discriminate NR.
+  Qed.
+
+  (* the fields after the INDIRECT_LOOKUP field: while field k has not been reached the code's list
+     carries 'TEMP_VAL' at place j where the specification already has the looked-up value *)
+  Lemma after_run : forall fs done s acc pos steps,
+    all = done ++ fs -> length acc = length done -> (j < length done)%nat ->
+    after_ok (length done) fs = true ->
+    fields_steps fs n = Some steps ->
+    (exists fj own, nth_error acc j = Some fj /\ fl_raw fj = VInt own /\ fl_val fj = specv own) ->
+    i_acc s = (if Z.of_nat (length done) <? k then patch_val j TEMP_VAL acc else acc) ->
+    0 <= i_off s ->
+    bind (run s steps) (fun s' => Ok (i_acc s')) = spec_fields_var L LB LI p all pos true acc fs.
+  Proof.
+    induction fs as [|f fs IH]; intros done s acc pos steps Hall Hlen Hj V F Hfj Hacc Ho.
+    - cbn in F. inversion F; subst steps. cbn [run_steps bind]. unfold spec_fields_var. cbn [spec_fields_gen].
+      rewrite Hacc. rewrite app_nil_r in Hall. subst done.
+      assert (Z.to_nat (k - 1) < length all)%nat by (apply nth_error_Some; rewrite Hr; discriminate).
+      destruct (Z.ltb_spec (Z.of_nat (length all)) k); [lia|reflexivity].
+    - cbn [after_ok] in V. apply andb_true_iff in V. destruct V as [V Vt].
+      apply andb_true_iff in V. destruct V as [Vf Tind]. apply negb_true_iff in Tind.
+      set (i := length done) in *.
+      destruct (ifield_facts i f Vf) as (Eord & K & Tlau & Tlz & off & len & Eo & El & Hoff & Hl).
+      pose proof (ifield_var_ok i (match fs with [] => true | _ => false end) f Vf Tind) as Vv.
+      assert (Hlen' : length (i_acc s) = i).
+      { rewrite Hacc. destruct (Z.of_nat i <? k); [rewrite patch_val_length|]; exact Hlen. }
+      destruct (body_steps f) as [b|] eqn:B;
+        [|cbn [fields_steps] in F; unfold field_steps in F; rewrite B in F; discriminate F].
+      destruct (body_run L LB LI p all f off VNone VNone 0 (i_acc s) off i true _ b K Vv Hlen' B Hoff Hoff eq_refl) as [NR _].
+      pose proof (field_steps_ns0 f b B NR Tind) as F0.
+      cbn [fields_steps] in F. rewrite (field_steps_n f b B NR Tind) in F.
+      set (base := pre_of f ++ b ++ [append_step f] ++ addlen_of f) in *.
+      destruct (fields_steps fs n) as [rest|] eqn:Er; [|discriminate F]. inversion F; subst steps. clear F.
+      destruct (field_run L LB LI p all f s (i_off s) i true _ _ _ _ Vv Hlen' F0 Ho Ho eq_refl) as (_ & _ & R).
+      assert (St : start_of true true (i_off s) f = off) by (unfold start_of; rewrite Eo; reflexivity).
+      assert (St' : start_of true true pos f = off) by (unfold start_of; rewrite Eo; reflexivity).
+      rewrite St in R. rewrite (spec_value_var_acc L LB LI p all off (i_acc s) acc f len El) in R.
+      unfold spec_fields_var. cbn [spec_fields_gen]. rewrite St'.
+      assert (Fx : fixed_size f = true) by (unfold fixed_size; rewrite El, Tlau; reflexivity).
+      rewrite Fx. cbn [andb].
+      rewrite (run_app L LB LI p (base ++ fire_of f) rest), (run_app L LB LI p base (fire_of f)).
+      destruct (spec_value_var L LB LI p all off acc f) as [[[v raw] size]|e|] eqn:Sv;
+        cbn [bind fst snd]; [|rewrite R; reflexivity|rewrite R; reflexivity].
+      destruct R as (s' & R & A & Raw & P1 & _ & _). rewrite R. cbn [bind].
+      destruct Hfj as (fj & own & Nj & Rj & Vj).
+      assert (Hfj' : exists fj own, nth_error (acc ++ [mk_field f v raw]) j = Some fj /\ fl_raw fj = VInt own /\ fl_val fj = specv own).
+      { exists fj, own. split; [|split; assumption]. rewrite nth_error_app1 by lia. exact Nj. }
+      assert (Hall' : all = (done ++ [f]) ++ fs) by (rewrite <- app_assoc; exact Hall).
+      assert (Hlen2 : length (acc ++ [mk_field f v raw]) = length (done ++ [f])) by (rewrite !app_length; cbn [length]; lia).
+      assert (Hj' : (j < length (done ++ [f]))%nat) by (rewrite app_length; lia).
+      assert (Ei : length (done ++ [f]) = S i) by (rewrite app_length; cbn [length]; lia).
+      unfold fire_of. rewrite Eord.
+      destruct (Z.eqb_spec k (Z.of_nat i + 1)) as [Ek|Nk].
+      + (* field k: the code resolves the pending value *)
+        assert (Efr : f = r).
+        { rewrite Hall in Hr. replace (Z.to_nat (k - 1)) with (i + 0)%nat in Hr by lia.
+          rewrite nth_error_app2 in Hr by lia. replace (i + 0 - length done)%nat with 0%nat in Hr by lia.
+          cbn in Hr. inversion Hr. reflexivity. }
+        assert (Eoff : off = offk) by (subst f; congruence).
+        assert (Elen : len = lenk) by (subst f; congruence).
+        assert (Rw : raw = VInt (field_bits p off len)).
+        { apply (sint_raw L LB LI p all off acc f len v raw size K); [subst f; exact Hsint|exact El|exact Sv]. }
+        assert (Raw' : i_raw s' = VInt (field_bits p off len)) by (rewrite Raw; exact Rw).
+        assert (Acc' : i_acc s' = patch_val j TEMP_VAL acc ++ [mk_field f v raw]).
+        { rewrite A, Hacc. destruct (Z.ltb_spec (Z.of_nat i) k); [reflexivity|lia]. }
+        assert (Nj' : nth_error (i_acc s') j = Some (with_val fj TEMP_VAL)).
+        { rewrite Acc'. rewrite nth_error_app1 by (rewrite patch_val_length; lia). apply nth_error_patch. exact Nj. }
+        cbn [app run_steps step]. rewrite Htb, Raw', Nj'. cbn [fl_raw with_val]. rewrite Rj. cbn [bind].
+        apply (IH (done ++ [f]) _ (acc ++ [mk_field f v raw]) (off + size) rest Hall' Hlen2 Hj'); try assumption; try reflexivity.
+        * rewrite Ei. exact Vt.
+        * cbn [i_acc]. rewrite Ei. destruct (Z.ltb_spec (Z.of_nat (S i)) k); [lia|].
+          rewrite Acc'. rewrite patch_val_app by (rewrite patch_val_length; lia).
+          f_equal. rewrite Eoff, Elen. fold (specv own). rewrite <- Vj. apply patch_patch_id. exact Nj.
+      + cbn [app].
+        apply (IH (done ++ [f]) s' (acc ++ [mk_field f v raw]) (off + size) rest Hall' Hlen2 Hj'); try assumption; try reflexivity.
+        * rewrite Ei. exact Vt.
+        * rewrite Ei, A, Hacc.
+          destruct (Z.ltb_spec (Z.of_nat i) k); destruct (Z.ltb_spec (Z.of_nat (S i)) k); try lia; try reflexivity.
+          rewrite patch_val_app by lia. reflexivity.
+  Qed.
+End Indirect.
+
+Lemma field_steps_indirect f off len tbn k :
+  is_t f T_INDIRECT = true -> f_bitoff f = Some off -> f_bitlen f = Some len ->
+  f_indirect f = Some tbn -> f_indirect_order f = Some k -> k <> f_order f ->
+  field_steps f ns0 = Some ([SSetOff off; SInt false len; STempVal; append_step f; SAddOff len],
+                            mkNs (Some (f_order f)) (Some k) (Some tbn), false).
+Proof.
+  intros T Eo El Et Ek Nk.
+  destruct (indirect_excl f T) as (X1 & X2 & X3 & X4 & X5 & X6 & X7 & X8 & X9 & X10 & X11).
+  unfold field_steps, body_steps. rewrite X1, X2, X3, X4, X5, X6, X7, X8, X9, X10, T, Eo, El, Et, Ek.
+  cbn [ns_order ns_orig ns_tbl app].
+  destruct (Z.eqb_spec k (f_order f)) as [E|_]; [contradiction|]. reflexivity.
+Qed.
+
+Definition tables_ok_fields (LI : ilookups) (fs : list dbfield) : bool :=
+  forallb (fun f => if is_t f T_INDIRECT
+                    then match f_indirect f with
+                         | Some t => match find_tbl t LI with Some _ => true | None => false end
+                         | None => false
+                         end
+                    else true) fs.
+
+Lemma before_run L LB LI p all : forall fs done s pos steps,
+  all = done ++ fs -> length (i_acc s) = length done ->
+  before_ok all (length done) fs = true -> tables_ok_fields LI fs = true ->
+  fields_steps fs ns0 = Some steps -> 0 <= i_off s ->
+  bind (run_steps L LB LI p s steps) (fun s' => Ok (i_acc s'))
+  = spec_fields_var L LB LI p all pos true (i_acc s) fs.
+Proof.
+  induction fs as [|f fs IH]; intros done s pos steps Hall Hlen V Tb F Ho; [discriminate V|].
+  cbn [before_ok] in V. apply andb_true_iff in V. destruct V as [Vf V].
+  cbn [tables_ok_fields forallb] in Tb. apply andb_true_iff in Tb. destruct Tb as [Tbf Tbt].
+  set (i := length done) in *.
+  destruct (ifield_facts i f Vf) as (Eord & K & Tlau & Tlz & off & len & Eo & El & Hoff & Hl).
+  assert (St : forall q, start_of true true q f = off) by (intros q; unfold start_of; rewrite Eo; reflexivity).
+  assert (Fx : fixed_size f = true) by (unfold fixed_size; rewrite El, Tlau; reflexivity).
+  assert (Hall' : all = (done ++ [f]) ++ fs) by (rewrite <- app_assoc; exact Hall).
+  assert (Ei : length (done ++ [f]) = S i) by (rewrite app_length; cbn [length]; lia).
+  unfold spec_fields_var. cbn [spec_fields_gen]. rewrite St, Fx. cbn [andb].
+  destruct (is_t f T_INDIRECT) eqn:Tind.
+  - (* the INDIRECT_LOOKUP field itself *)
+    destruct (f_indirect f) as [tbn|] eqn:Et; [|discriminate V].
+    destruct (f_indirect_order f) as [k|] eqn:Ek; [|discriminate V].
+    apply andb_true_iff in V. destruct V as [V Va]. apply andb_true_iff in V. destruct V as [Vk Vr].
+    apply Z.ltb_lt in Vk.
+    destruct (nth_error all (Z.to_nat (k - 1))) as [r|] eqn:Hr; [|discriminate Vr].
+    apply andb_true_iff in Vr. destruct Vr as [Hsint Vr].
+    destruct (f_bitoff r) as [offk|] eqn:Hro; [|discriminate Vr].
+    destruct (f_bitlen r) as [lenk|] eqn:Hrl; [|discriminate Vr].
+    destruct (find_tbl tbn LI) as [tb|] eqn:Htb; [|discriminate Tbf].
+    assert (Nk : k <> f_order f) by lia.
+    cbn [fields_steps] in F. rewrite (field_steps_indirect f off len tbn k Tind Eo El Et Ek Nk) in F.
+    cbn [negb] in F. rewrite Eord in F.
+    destruct (fields_steps fs (mkNs (Some (Z.of_nat i + 1)) (Some k) (Some tbn))) as [rest|] eqn:Er; [|discriminate F].
+    inversion F; subst steps. clear F.
+    (* what the specification says of the field *)
+    unfold spec_value_var at 1. rewrite K, Tlau, Tlz, Tind, El, Et, Ek. cbn [negb].
+    unfold field_by_order. rewrite Hr, Hro, Hrl, Htb. cbn [bind fst snd].
+    (* what the code does *)
+    unfold append_step. cbn [run_steps step bind i_off i_val i_raw i_skip i_acc set_off set_regs set_val].
+    rewrite decode_int_bits by lia.
+    set (own := field_bits p off len).
+    apply (after_run L LB LI p all i k tbn tb r offk lenk Htb Hr Hsint Hro Hrl Vk fs (done ++ [f]) _ _ _ rest Hall');
+      try assumption; try reflexivity.
+    + rewrite !app_length. cbn [length]. lia.
+    + rewrite Ei. lia.
+    + rewrite Ei. exact Va.
+    + eexists. exists own. split.
+      { rewrite nth_error_app2 by lia. replace (i - length (i_acc s))%nat with 0%nat by lia. reflexivity. }
+      split; reflexivity.
+    + cbn [i_acc]. rewrite Ei. destruct (Z.ltb_spec (Z.of_nat (S i)) k); [|lia].
+      rewrite <- Hlen. rewrite patch_val_last. reflexivity.
+    + cbn [i_off set_off]. lia.
+  - (* a fixed-layout field before it *)
+    pose proof (ifield_var_ok i (match fs with [] => true | _ => false end) f Vf Tind) as Vv.
+    cbn [fields_steps] in F.
+    destruct (field_steps f ns0) as [[[st n'] stop]|] eqn:Ef; [|discriminate F].
+    destruct (field_run L LB LI p all f s (i_off s) i true _ st n' stop Vv Hlen Ef Ho Ho eq_refl) as (-> & -> & R).
+    rewrite K in F. cbn [negb] in F. rewrite St in R.
+    destruct (fields_steps fs ns0) as [rest|] eqn:Er; [|discriminate F]. inversion F; subst steps. clear F.
+    rewrite run_app.
+    destruct (spec_value_var L LB LI p all off (i_acc s) f) as [[[v raw] size]|e|];
+      cbn [bind fst snd]; [|rewrite R; reflexivity|rewrite R; reflexivity].
+    destruct R as (s' & R & A & _ & P1 & _ & _). rewrite R. cbn [bind]. rewrite <- A.
+    apply (IH (done ++ [f]) s' (off + size) rest Hall'); try assumption; try reflexivity.
+    + rewrite A, !app_length. cbn [length]. lia.
+    + rewrite Ei. exact V.
+Qed.
+
+Theorem run_template_is_spec_decode_indirect L LB LI p d td :
+  indirect_def d = true -> indirect_tables_ok LI d = true -> ddef_of_db d = Some td ->
+  run_ddef L LB LI p td = spec_decode_var L LB LI p d.
+Proof.
+  unfold indirect_def, indirect_tables_ok, ddef_of_db, run_ddef, spec_decode_var. intros V Tb F.
+  destruct (fields_steps (d_fields d) ns0) as [steps|] eqn:Es; [|discriminate]. inversion F; subst. clear F.
+  cbn [c_steps c_pgn c_id c_descr c_ttl run_steps step bind].
+  change (set_off (mkIst 0 VNone VNone 0 []) 0) with (mkIst 0 VNone VNone 0 []).
+  pose proof (before_run L LB LI p (d_fields d) (d_fields d) [] (mkIst 0 VNone VNone 0 []) 0 steps
+                eq_refl eq_refl V Tb Es (Z.le_refl 0)) as R.
+  cbn [i_acc] in R. rewrite <- R.
+  destruct (run_steps L LB LI p (mkIst 0 VNone VNone 0 []) steps) as [s'|e|]; reflexivity.
+Qed.
+
+(* ---------- C01 for every definition of the class var_def ---------- *)
+Theorem run_template_is_spec_decode_var L LB LI p d td :
+  var_def d = true -> indirect_tables_ok LI d = true -> ddef_of_db d = Some td ->
+  run_ddef L LB LI p td = spec_decode_var L LB LI p d.
+Proof.
+  unfold var_def. intros V Tb F. apply orb_true_iff in V. destruct V as [V|V].
+  - apply run_template_is_spec_decode_layout; assumption.
+  - apply run_template_is_spec_decode_indirect; assumption.
+Qed.
+
+(* from the table obligation to the statement about the translated code *)
+Theorem def_ok_sound_var code_dec L LB LI g d :
+  def_ok code_dec g d = true -> var_def d = true -> indirect_tables_ok LI d = true ->
+  exists cd, find_fname (fname_of g d) code_dec = Some cd /\
+             forall p, run_ddef L LB LI p cd = spec_decode_var L LB LI p d.
+Proof.
+  unfold def_ok. intros H S Tb.
+  destruct (find_fname (fname_of g d) code_dec) as [cd|]; [|discriminate].
+  destruct (ddef_of_db d) as [td|] eqn:T; [|discriminate].
+  apply ddef_eqb_eq in H. subst td. exists cd. split; [reflexivity|].
+  intros p. apply run_template_is_spec_decode_var; assumption.
+Qed.
+
+Lemma simple_is_var d : simple_def d = true -> var_def d = true.
+Proof. intros S. unfold var_def. rewrite (simple_is_layout d S). reflexivity. Qed.
